@@ -63,7 +63,7 @@ Definition rpopulate (a : rstate) (ts : list (trial tdata unit)) (ongoing_nonemp
   match ov with
   | None => (a1, STOPPED, {| tv_space := []; tv_values := ∅; tv_obs := [] |})
   | Some v =>
-      let '(v', k') := ensure_go0 draw (s_space (a_osp a)) v (a_k a) in
+      let '(v', k') := ensure_go draw (s_space (a_osp a)) (s_space (a_osp a)) v (a_k a) in
       (record a1 id v' k', RUNNING, {| tv_space := s_space (a_osp a); tv_values := v'; tv_obs := [] |})
   end.
 
@@ -85,23 +85,25 @@ Inductive rop :=
 | RReload.
 
 Definition vdef : tdata := {| tv_space := []; tv_values := ∅; tv_obs := [] |}.
+(* create_trial on a queued trial: same space and values, fresh metrics *)
+Definition rfresh (d : tdata) : tdata := {| tv_space := tv_space d; tv_values := tv_values d; tv_obs := [] |}.
 
 Definition rstep (c : cfg) (s : @ostate rstate tdata unit) (o : rop) : @ostate rstate tdata unit * @resp tdata :=
   match o with
-  | RCreate tu => step vdef rscore rpopulate rhook_end rhook_end (fun a => a) (fun v => v) c s (Create tu)
-  | RUpdate id x => step vdef rscore rpopulate rhook_end rhook_end (fun a => a) (fun v => v) c s
+  | RCreate tu => step vdef rscore rpopulate rhook_end rhook_end (fun a => a) rfresh c s (Create tu)
+  | RUpdate id x => step vdef rscore rpopulate rhook_end rhook_end (fun a => a) rfresh c s
                       (Update id (fun d => {| tv_space := tv_space d; tv_values := tv_values d; tv_obs := tv_obs d ++ [x] |}))
   | REnd id st sp v =>
       let k := a_k (algo s) in
-      let '(v', k') := ensure_go0 draw sp (list_to_map v) k in
+      let '(v', k') := ensure_go draw sp sp (list_to_map v) k in
       let f := fun d => {| tv_space := sp; tv_values := v'; tv_obs := tv_obs d |} in
-      let '(s1, r) := step vdef rscore rpopulate rhook_end rhook_end (fun a => a) (fun v => v) c s (End id st f) in
+      let '(s1, r) := step vdef rscore rpopulate rhook_end rhook_end (fun a => a) rfresh c s (End id st f) in
       (* account for the unseeded draws of this call *)
       ({| trials := trials s1; ongoing := ongoing s1; start_order := start_order s1; end_order := end_order s1;
           retryq := retryq s1; tuner_ids := tuner_ids s1; disk := disk s1;
           algo := {| a_osp := a_osp (algo s1); a_seed := a_seed (algo s1); a_tried := a_tried (algo s1);
                      a_idhash := a_idhash (algo s1); a_k := match r with RRejected => k | _ => k' end |} |}, r)
-  | RReload => step vdef rscore rpopulate rhook_end rhook_end (fun a => a) (fun v => v) c s Reload
+  | RReload => step vdef rscore rpopulate rhook_end rhook_end (fun a => a) rfresh c s Reload
   end.
 
 Fixpoint rrun (c : cfg) (s : @ostate rstate tdata unit) (ops : list rop) :=
